@@ -82,6 +82,22 @@ def part_c(tier, out):
         return res, 0, None
     findings = [l for l in text.splitlines() if "FINDINGS" in l]
     ub = [l for l in text.splitlines() if MIRI_ERR.search(l)]
+    if findings and not ub:
+        # a lineage mismatch: is it there without any thread too (fresh native process)? then it
+        # is not a thread-safety matter and is not reported under C20
+        sh("cargo build --release --features ts --bin miri_scn --target-dir target-ts", cwd=SIM)
+        progs = sorted(set(int(m.group(1)) for m in (re.match(r"program (\d+) ", l) for l in findings) if m))
+        still = []
+        for pnum in progs:
+            rb = sh(f"./target-ts/release/miri_scn {SEED} {pnum} 1 baseline", cwd=SIM)
+            if rb.returncode == 0:
+                still.append(pnum)
+        res["programs_with_findings"] = progs
+        res["programs_failing_without_threads"] = [x for x in progs if x not in still]
+        if not still:
+            res["note"] = "lineage mismatches also occur without threads: not a C20 matter"
+            return res, 0, None
+        findings = [l for l in findings if any(l.startswith(f"program {x} ") for x in still)]
     if findings or ub:
         os.makedirs(ROOT + "/replays/C20", exist_ok=True)
         path = f"{ROOT}/replays/C20/miri-{SEED}.json"
